@@ -26,7 +26,10 @@ def parseName (t : String) : Option Name := do
 
 def parseWho (t : String) : Option Who :=
   if t = "self" then some .self
-  else if t.startsWith "o" then (t.drop 1).toNat?.map .obj
+  else if t.startsWith "o" then
+    match (t.drop 1).toNat? with
+    | some k => if k = 0 then none else some (.obj k)     -- objects are numbered from 1
+    | none => none
   else none
 
 def parseSrc (t : String) : Option Src :=
